@@ -263,7 +263,7 @@ def gen_p2p(rng, *, max_spans=4, user_amps=True, fused=True, both=None, max_km=1
 def gen_topology(rng, *, n_sites=None, max_sites=5, max_spans=3, whole_km=False, user_amps=True, fused=True,
                  max_km=140, extra_links=None, roadm_params=None, per_degree=False, lumped=False,
                  per_freq_loss=False, long_fibers=False, amp_varieties=None, roadm_variety=None,
-                 no_booster_fused=False, dispersion_variants=False, dup_lumped=False):
+                 no_booster_fused=False, dispersion_variants=False, dup_lumped=False, chassis=False):
     """Random meshed topology in legacy JSON form. Both directions of each link are built independently
     (asymmetric lengths/losses). Returns (topology json, description)."""
     n = n_sites or rng.randint(2, max_sites)
@@ -360,6 +360,16 @@ def gen_topology(rng, *, n_sites=None, max_sites=5, max_spans=3, whole_km=False,
                     elif r < 0.7:
                         e['params'].setdefault('per_degree_psd_out_mWperSlotWidth', {})[d] = \
                             pick(rng, [2e-4, 1.2e-4, 3e-4])
+    if chassis:
+        # one more transceiver, attached to a ROADM through a fibre line (an external chassis transponder)
+        a = f'roadm {rng.choice(sites)}'
+        els.append({'uid': 'trx X', 'type': 'Transceiver', 'metadata': _loc(9, 9)})
+        for src, dst in (('trx X', a), (a, 'trx X')):
+            chain = [gen_fiber(rng, f'fiber ({src} → {dst})-{j}', max_km=min(max_km, 100)) for j in range(rng.randint(1, 2))]
+            els += chain
+            u = [src] + [c['uid'] for c in chain] + [dst]
+            cx.extend(zip(u[:-1], u[1:]))
+        desc['chassis'] = a
     tj = {'network_name': 'vf generated', 'elements': els,
           'connections': [{'from_node': f, 'to_node': t} for f, t in cx]}
     return tj, desc
